@@ -809,8 +809,10 @@ def _refine_by_facts(fn, ret, vs):
     return out or vs
 
 
-def value_set(prog, fn, e, depth=0):
-    """Set of constant values an int expression can take, or None if unknown."""
+def value_set(prog, fn, e, depth=0, bind=None, busy=frozenset()):
+    """Set of constant values an int expression can take, or None if unknown.  `bind` = (caller, {param decl: argument},
+    outer bind) resolves a parameter the callee hands back; `busy` holds the variables being evaluated (a variable
+    defined in terms of itself - `status = finish(..., status)` - contributes nothing new: least fixpoint)."""
     e = strip_all(e)
     if e is None:
         return None
@@ -819,10 +821,10 @@ def value_set(prog, fn, e, depth=0):
         return {v}
     k = e.get("k")
     if k == "ConditionalOperator":
-        a = value_set(prog, fn, e["c"][1], depth)
-        b = value_set(prog, fn, e["c"][2], depth)
+        a = value_set(prog, fn, e["c"][1], depth, bind, busy)
+        b = value_set(prog, fn, e["c"][2], depth, bind, busy)
         return None if a is None or b is None else a | b
-    if is_call(e) and depth < 4:
+    if is_call(e) and depth < 6:
         ts = prog.call_targets(fn, e)
         if not ts:
             return None
@@ -831,34 +833,45 @@ def value_set(prog, fn, e, depth=0):
             rs = [n for n in t.walk() if n.get("k") == "ReturnStmt"]
             if not rs:
                 return None
+            b2 = (fn, {p_["d"]: a for p_, a in zip(t.params, call_args(e))}, bind, busy)
             for rt in rs:
                 if not rt.get("c"):
                     return None
-                vs = value_set(prog, t, rt["c"][0], depth + 1)
+                vs = value_set(prog, t, rt["c"][0], depth + 1, b2, frozenset())
                 if vs is None:
                     return None
                 out |= _refine_by_facts(t, rt, vs)
         return out
+    if k == "DeclRefExpr" and e.get("dk") == "ParmVar" and bind is not None and e.get("d") in bind[1] and depth < 8:
+        if any(d_ == e["d"] for x in fn.walk() for d_, _ in flow.written_decls(x)):
+            return None
+        return value_set(prog, bind[0], bind[1][e["d"]], depth + 1, bind[2], bind[3] if len(bind) > 3 else frozenset())
     if k == "DeclRefExpr" and e.get("dk") == "Var":
+        if (fn.uid, e.get("d")) in busy:
+            return set()
+        busy = busy | {(fn.uid, e.get("d"))}
         # local assigned only constants
         vals = set()
+        seen_def = False
         for n in fn.walk():
             if n.get("k") == "VarDecl" and n.get("d") == e.get("d"):
                 if n.get("c"):
-                    vs = value_set(prog, fn, n["c"][0], depth + 1)
+                    vs = value_set(prog, fn, n["c"][0], depth + 1, bind, busy)
                     if vs is None:
                         return None
                     vals |= vs
+                    seen_def = True
             elif n.get("k") == "BinaryOperator" and n.get("op") == "=":
                 if flow.lvalue_root(n["c"][0]) == e.get("d"):
-                    vs = value_set(prog, fn, n["c"][1], depth + 1)
+                    vs = value_set(prog, fn, n["c"][1], depth + 1, bind, busy)
                     if vs is None:
                         return None
                     vals |= vs
+                    seen_def = True
             elif n.get("k") in ("CompoundAssignOperator", "UnaryOperator") and n.get("op") in flow.ASSIGN_OPS | {"++", "--"}:
                 if flow.lvalue_root(n["c"][0]) == e.get("d"):
                     return None
-        return vals or None
+        return vals if (vals or seen_def) else None
     return None
 
 
